@@ -438,14 +438,21 @@ pub(crate) fn any_error_kind() -> io::ErrorKind {
 // loops (SIMD group scans) make even two insertions cost minutes and gigabytes under CBMC. These stubs replace
 // std::collections::HashMap::{insert, get, len} by an association list with the same observable behaviour
 // (insert returns the previous value for an existing key, get finds the latest value, len counts distinct keys).
-// Model restriction (part of the claim): the table belongs to the most recently created map (creation empties it);
-// a map created earlier must not be read afterwards -- true where a later palette replaces an earlier one.
+// Rows are tagged with the map they belong to (see SIDE_OWNER), so maps that are alive at the same time stay apart.
+// Model restriction (part of the claim): only insert / len / ColorPalette::color are modelled; any other map
+// operation (extend, remove, iteration) acts on the real, empty map. A counterexample that depends on one of those
+// does not reproduce natively and is then reported as inconclusive, not as a violation.
 use std::borrow::Borrow;
 use std::collections::HashMap;
 use std::hash::{BuildHasher, Hash};
 
 const SIDE_CAP: usize = 8;
 static mut SIDE_KEYS: [u32; SIDE_CAP] = [0; SIDE_CAP];
+// owner of each row: the capacity() of the map it was inserted into. hm_with_hasher gives every map it creates a
+// different (real) capacity, which survives moves of the map value; no real insertion ever happens, so it never changes.
+static mut SIDE_OWNER: [usize; SIDE_CAP] = [0; SIDE_CAP];
+static mut SIDE_MAPS: usize = 0;
+const SIDE_MAP_CAPS: [usize; 6] = [1, 4, 8, 15, 29, 57];
 static mut SIDE_VALS: [Option<ColorPaletteEntry>; SIDE_CAP] = [None, None, None, None, None, None, None, None];
 static mut SIDE_N: usize = 0;
 
@@ -453,6 +460,9 @@ pub(crate) fn side_table_reset() {
     unsafe {
         SIDE_N = 0;
     }
+}
+fn owner_of<K, V, S, A: std::alloc::Allocator>(m: &HashMap<K, V, S, A>) -> usize {
+    m.capacity()
 }
 
 pub(crate) fn hm_insert<K, V, S, A>(_this: &mut HashMap<K, V, S, A>, k: K, v: V) -> Option<V>
@@ -467,9 +477,10 @@ where
         core::mem::forget(k);
         let val: ColorPaletteEntry = core::mem::transmute_copy(&v);
         core::mem::forget(v);
+        let owner = owner_of(_this);
         let mut i = 0;
         while i < SIDE_N {
-            if SIDE_KEYS[i] == key {
+            if SIDE_KEYS[i] == key && SIDE_OWNER[i] == owner {
                 #[allow(static_mut_refs)]
                 let old = SIDE_VALS[i].replace(val);
                 return match old {
@@ -485,6 +496,7 @@ where
         }
         assert!(SIDE_N < SIDE_CAP, "side table capacity");
         SIDE_KEYS[SIDE_N] = key;
+        SIDE_OWNER[SIDE_N] = owner;
         SIDE_VALS[SIDE_N] = Some(val);
         SIDE_N += 1;
         None
@@ -494,9 +506,10 @@ where
 /// `ColorPalette::color` over the side table (std's generic `HashMap::get` cannot be stubbed by Kani 0.68)
 pub(crate) fn side_color(_this: &ColorPalette, index: u32) -> Option<&ColorPaletteEntry> {
     unsafe {
+        let owner = owner_of(&_this.entries);
         let mut i = 0;
         while i < SIDE_N {
-            if SIDE_KEYS[i] == index {
+            if SIDE_KEYS[i] == index && SIDE_OWNER[i] == owner {
                 #[allow(static_mut_refs)]
                 return SIDE_VALS[i].as_ref();
             }
@@ -506,15 +519,29 @@ pub(crate) fn side_color(_this: &ColorPalette, index: u32) -> Option<&ColorPalet
     }
 }
 
-/// `HashMap::with_hasher` (what `IntMap::default()` calls): creating a map empties the side table, so that a palette
-/// parsed later in the same harness starts empty even though the earlier one has not been dropped yet
+/// `HashMap::with_hasher` (what `IntMap::default()` calls): every map created gets its own real capacity, which
+/// identifies its rows in the side table (so two palettes alive at the same time stay apart)
 pub(crate) fn hm_with_hasher<K, V, S>(hash_builder: S) -> HashMap<K, V, S> {
-    side_table_reset();
-    HashMap::with_capacity_and_hasher(0, hash_builder)
+    unsafe {
+        assert!(SIDE_MAPS < SIDE_MAP_CAPS.len(), "side table: number of maps");
+        let c = SIDE_MAP_CAPS[SIDE_MAPS];
+        SIDE_MAPS += 1;
+        HashMap::with_capacity_and_hasher(c, hash_builder)
+    }
 }
 
 pub(crate) fn hm_len<K, V, S, A: std::alloc::Allocator>(_this: &HashMap<K, V, S, A>) -> usize {
-    unsafe { SIDE_N }
+    unsafe {
+        let owner = owner_of(_this);
+        let (mut i, mut n) = (0, 0);
+        while i < SIDE_N {
+            if SIDE_OWNER[i] == owner {
+                n += 1;
+            }
+            i += 1;
+        }
+        n
+    }
 }
 
 // ---------------------------------------------------------------------------------------------------------
